@@ -7,13 +7,13 @@ def body(c):
     # 1. design step: the iterator machines refine the declarative references, for every DAG shape,
     #    sharing labelling and algorithm within the bound; terminal states are emitted as replay cases
     r = c.tlc_design("MC_DagIter", "MC_DagIter_quick.cfg" if q else "MC_DagIter_thorough.cfg",
-                     heap="12g", timeout=3000)
+                     heap="12g", timeout=3000, coverage=True)
     cases = tla_to_json_lines(r.prints, "CASE")
     if not cases:
         raise ToolError("no replay cases emitted")
     c.extra["initial_states"] = r.initial
     if not q:
-        r2 = c.tlc_design("MC_DagIter", "MC_DagIter_thorough6.cfg", heap="16g", timeout=3000)
+        r2 = c.tlc_design("MC_DagIter", "MC_DagIter_thorough6.cfg", heap="16g", timeout=3000, coverage=True)
         cases += tla_to_json_lines(r2.prints, "CASE")
     # 2. spec -> impl
     cpath = os.path.join(c.work, "cases.ndjson")
